@@ -132,7 +132,12 @@ def code_matches(got, want):
 def random_label_png(rng):
     rows = [bytearray(carts.random_bytes(rng, rc.CART_W * 4)) for _ in range(rc.CART_H)]
     filters = [rng.randrange(5) for _ in range(rc.CART_H)]
-    return rc.png_encode(rc.CART_W, rc.CART_H, rows, filters), rows
+    # what an image editor leaves in a retouched cartridge picture: ancillary chunks, several IDAT chunks
+    import struct
+    pool = [(b'gAMA', struct.pack('>I', 45455)), (b'pHYs', struct.pack('>IIB', 2835, 2835, 1)), (b'bKGD', struct.pack('>HHH', 0, 0, 0)),
+            (b'tEXt', b'Software\x00some editor'), (b'sRGB', b'\x00'), (b'tIME', struct.pack('>HBBBBB', 2021, 3, 4, 5, 6, 7))]
+    extra = [c for c in pool if rng.random() < 0.3]
+    return rc.png_encode(rc.CART_W, rc.CART_H, rows, filters, extra_chunks=extra, idat_pieces=rng.choice((1, 1, 3, 40))), rows
 
 
 _BLANK = {}
